@@ -15,24 +15,32 @@ EXTENDS Integers, Sequences, FiniteSets, TLC, Json
 
 Fault == "none"
 KeepPathType == TRUE
+KeyRegime == "mock"      \* (the key-regime records carry the generator's predictions)
+CheckSrcHost == TRUE
+MaxDatagrams == 1
+CIAs == {}  CHosts == {}
 Modes == {}  ULs == {}  L4s == {}  DPorts == {}  DHosts == {}  Fams == {}  PathSet == {}  Pls == {}
 ReqAuths == {}  RespMuts == {}
-VARIABLES mode, cauth, pc, req, authd, act, out, rm, resp, cres
+VARIABLES mode, cauth, pc, req, authd, act, out, rm, resp, cres, cache, kinfo, nsent, hist
 INSTANCE ScionAuth
 
 Trace == ndJsonDeserialize("trace.ndjson")
 N == Len(Trace)
 VARIABLE l
-svars == <<mode, cauth, pc, req, authd, act, out, rm, resp, cres>>
+svars == <<mode, cauth, pc, req, authd, act, out, rm, resp, cres, cache, kinfo, nsent, hist>>
 TInit == /\ l = 0
          /\ mode = "server" /\ cauth = FALSE /\ pc = "trace" /\ req = Blank /\ authd = FALSE /\ act = "-"
          /\ out = << >> /\ rm = "-" /\ resp = Blank /\ cres = "-"
+         /\ cache = << >> /\ kinfo = NoKInfo /\ nsent = 0 /\ hist = << >>
 TNext == /\ \E j \in 1 .. 16 : l' = 16 * l + j /\ l' <= N
          /\ UNCHANGED svars
 TSpec == TInit /\ [][TNext]_<<l, svars>>
 
 R == Trace[l]
-Exch == l > 0 /\ R.k \in {"req", "e2e"}      \* one datagram sent to a listener and what came out
+Exch == l > 0 /\ R.k \in {"req", "e2e", "key"}   \* one datagram sent to a listener and what came out
+\* ("key": a step of a key-regime sequence; its MAC ground truth is relative to the
+\* host-to-host key of (destination ISD-AS, source ISD-AS, destination host, source host))
+Stateless == l > 0 /\ R.k \in {"req", "e2e"}   \* ... at a listener whose key cache does not matter
 E2E  == l > 0 /\ R.k = "e2e"
 Q == R.q
 O(i) == R.outs[i]
@@ -74,12 +82,13 @@ ObsAct == IF R.outs = << >> THEN "Drop"
           ELSE IF O(1).l4 = "echoRep" THEN "EchoReply"
           ELSE IF O(1).l4 = "trRep" THEN "TracerouteReply"
           ELSE "Forward"
-Judged == Exch /\ R.sn = 1
+Judged == Stateless /\ R.sn = 1
 SOne == Judged => Len(R.outs) <= 1
-SGroundTruth == Exch => /\ R.hasauth = D.auth.present
-                        /\ R.expected = ExpectedReq(D)
-                        /\ R.expected => (R.macok = MacOK(D, "k0"))
-                        /\ Q.pl = D.pl /\ Q.sia = "iaC" /\ Q.dia = "iaS" /\ Q.sh = "C"
+SGroundTruth == Stateless =>
+   /\ R.hasauth = D.auth.present
+   /\ R.expected = ExpectedReq(D)
+   /\ R.expected => (R.macok = MacOK(D, ReqKey(D)))
+   /\ Q.pl = D.pl /\ Q.sia = "iaC" /\ Q.dia = "iaS" /\ Q.sh = "C"
 SAct == Judged => LET w == PredictAct(R.mode, D)
                   IN IF w = "Forward" /\ R.undel THEN ObsAct = "Drop" ELSE ObsAct = w
 SReply == Judged => \A i \in DOMAIN R.outs :
@@ -92,19 +101,26 @@ SReply == Judged => \A i \in DOMAIN R.outs :
                          \* checksum, so a MAC that failed only because of it verifies again)
                          /\ (O(i).auth = "absent") = (Q.auth = "absent") /\ O(i).aspi = Q.aspi)
 \* the client: what came back, and its verdict
-RB == WithAuth([Blank EXCEPT !.path = Reverse(Q.path), !.ptype = Reverse(Q.path).kind, !.pl = "ntpResp"], "server", "k0")
+RB == WithAuth([Blank EXCEPT !.path = Reverse(Q.path), !.ptype = Reverse(Q.path).kind, !.pl = "ntpResp"], "server", <<"k0">>)
 RM == CASE R.rm = "pass"  -> RB
         [] R.rm = "strip" -> [RB EXCEPT !.auth = NoAuth]
         [] OTHER          -> Tamper(RB, R.rm)
 SResp == (E2E /\ R.delivered /\ PredictAuthd(R.mode, D)) =>
    /\ R.rhasauth = RM.auth.present
    /\ R.rexpected = ExpectedResp(RM)
-   /\ R.rexpected => (R.rmacok = MacOK(RM, "k0"))
+   /\ R.rexpected => (R.rmacok = MacOK(RM, <<"k0">>))
 SClient == E2E => IF R.delivered
                   THEN R.cli = (IF R.cauth /\ R.rhasauth /\ R.rexpected
                                 THEN (IF R.rmacok THEN "verified" ELSE "reject") ELSE "unauth")
                   ELSE R.cli = "other"
 SNoStray == l > 0 => R.k # "stray"
+\* key-regime sequences: the step's outcome and the key daemon's view are what the
+\* behaviour of ScionAuth.tla (cache per client ISD-AS, revalidation) says
+SKey == (l > 0 /\ R.k = "key" /\ R.sn = 1) =>
+   /\ ObsAct = R.wact
+   /\ R.fetches = (IF R.wfetch THEN 1 ELSE 0)
+   /\ Len(R.outs) <= 1
+   /\ \A i \in DOMAIN R.outs : NtpRep(O(i)) /\ O(i).auth # "absent" /\ O(i).echo /\ O(i).from = Q.ul
 
 \* ------------------------------------------------------------------- report
 \* (ScionAuthTrace_report.cfg) after a failed pass: every record that fails and
@@ -112,14 +128,14 @@ SNoStray == l > 0 => R.k # "stray"
 \* monitor's (mon) resp. the strict mode's (strict)
 MonNames == {"TMacSoundReq", "TMacSoundResp", "TAuthReply", "TAuthReplyClient", "TReplyAddressing", "TForwardRule",
              "TNoStrayToEh"}
-StrictNames == {"SOne", "SGroundTruth", "SAct", "SReply", "SResp", "SClient", "SNoStray"}
+StrictNames == {"SOne", "SGroundTruth", "SAct", "SReply", "SResp", "SClient", "SNoStray", "SKey"}
 Holds(n) == CASE n = "TMacSoundReq" -> TMacSoundReq [] n = "TMacSoundResp" -> TMacSoundResp
               [] n = "TAuthReply" -> TAuthReply [] n = "TAuthReplyClient" -> TAuthReplyClient
               [] n = "TReplyAddressing" -> TReplyAddressing [] n = "TForwardRule" -> TForwardRule
               [] n = "TNoStrayToEh" -> TNoStrayToEh
               [] n = "SOne" -> SOne [] n = "SGroundTruth" -> SGroundTruth [] n = "SAct" -> SAct
               [] n = "SReply" -> SReply [] n = "SResp" -> SResp [] n = "SClient" -> SClient
-              [] n = "SNoStray" -> SNoStray
+              [] n = "SNoStray" -> SNoStray [] n = "SKey" -> SKey
 Report == LET m == {n \in MonNames : ~Holds(n)}
               d == {n \in StrictNames : ~Holds(n)}
           IN (m # {} \/ d # {}) => PrintT(<<"BAD", ToJson([l |-> l, mon |-> m, strict |-> d])>>)
